@@ -52,6 +52,13 @@ def units(tier, seed):
     step = 0x2000
     for lo in range(0, 0x110000, step):
         u.append({'k': 'cp', 'lo': lo, 'hi': min(lo + step, 0x110000)})
+    if tier == 'thorough':
+        # every code point through a real file of every format as well
+        for lo in range(0, 0x110000, 0x4000):
+            u.append({'k': 'cpfile', 'lo': lo, 'hi': min(lo + 0x4000, 0x110000)})
+    else:
+        for lo in (0, 0x2000, 0xd800, 0x3000, 0x10c000):
+            u.append({'k': 'cpfile', 'lo': lo, 'hi': lo + 0x400})
     nrand, nfix, nfile = (300, 300, 60) if tier == 'quick' else (12000, 12000, 1500)
     for i in range(nrand):
         u.append({'k': 'rand', 'i': i, 'n': 20})
@@ -271,6 +278,30 @@ def _cp_batch(ctx, batch):
         ctx.sample({'kind': 'cp', 'entries': batch[:3]}, 'cp')
 
 
+def run_cpfile(u, ctx):
+    """Code points through real (UTF-8 encoded, possibly compressed) files."""
+    ents = []
+    for cp in range(u['lo'], u['hi']):
+        p = 'q' + chr(cp) + 'r'
+        ents.append({'tag': 'DATA', 'path': p, 'size': cp, 'sums': {}})
+    fmt = FORMATS[(u['lo'] // 0x400) % len(FORMATS)]
+    fmts = FORMATS if ctx.tier == 'thorough' else [fmt]
+    for f in fmts:
+        case = {'kind': 'file', 'fmt': f, 'entries': ents}
+        n0 = len(ctx.violations)
+        ok = file_roundtrip(ctx, ents, f, case)
+        if not ok:
+            # minimise: find one offending entry
+            del ctx.violations[n0:]
+            for e in ents:
+                if not file_roundtrip(ctx, [e], f, {'kind': 'file', 'fmt': f,
+                                                    'entries': [e]}):
+                    break
+        ctx.counters['evaluations'] += len(ents)
+        ctx.enumerated += len(ents)
+        ctx.counters['class:codepoint-file-' + f] += len(ents)
+
+
 def run_rand(u, ctx):
     for j in range(u['n']):
         rng = common.rng_for(ctx.seed, ID, 'rand', u['i'], j)
@@ -362,7 +393,8 @@ def exec_case(case, ctx):
 
 
 def run_unit(u, ctx):
-    {'cp': run_cp, 'rand': run_rand, 'fix': run_fix, 'file': run_file}[u['k']](u, ctx)
+    {'cp': run_cp, 'rand': run_rand, 'fix': run_fix, 'file': run_file,
+     'cpfile': run_cpfile}[u['k']](u, ctx)
 
 
 def replay(case, ctx):
